@@ -83,6 +83,10 @@ def _tainted_names(fnode, seeds):
 
 
 def run(ctx):
+    from . import c19 as _c19s
+
+    # internal variables of a restored iteration: the committed-state round trip of the InElastic simulation
+    ctx.attempt(_c19s.committed_state_roundtrip_rule, ctx, 'R15.19')
     from . import e2e_rules as _e2e
 
     ctx.attempt(_e2e.iterations_rule, ctx, 'R15.E1')
